@@ -639,6 +639,10 @@ func runCollCase(c *collCase, tape *Tape, out *RunOut) []Violation {
 				add("C17.snapshot", "lost", "%s: %s is registered (r%d) in the provider's snapshot but resolution failed: %v", when, id, p.Reg, firstLine(err))
 			case registered && got != p.Reg && !mm.touched[p.Reg]:
 				add("C17.queries", "producer", "%s: %s resolved to an instance of r%d, the registry says r%d", when, id, got, p.Reg)
+				if mm.regs[p.Reg].Life == LSingleton {
+					// "exactly its outputs are what is resolved": the identity belongs to singleton p.Reg
+					vs = append(vs, Violation{Prop: "C01", Rule: "C01.outputs", Shape: "history/foreign", Msg: fmt.Sprintf("%s: singleton identity %s is registered by r%d but resolves to an instance made by r%d", when, id, p.Reg, got)})
+				}
 			case !registered && err == nil:
 				add("C17.removed", "resolves", "%s: %s is not registered in the provider's snapshot but resolved (instance of r%d)", when, id, got)
 			case !registered && !hasClass(cls, ENotFound):
@@ -847,6 +851,31 @@ func runCollCase(c *collCase, tape *Tape, out *RunOut) []Violation {
 	}
 	for _, bp := range provs {
 		bp.p.Close()
+	}
+	// every provider of the history is closed now: whatever the container had constructors create
+	// for them (also outputs whose identity had been removed from the collection before the Build)
+	// has been closed exactly once
+	for _, in := range h.insts {
+		if in == nil || in.Inv < 0 {
+			continue
+		}
+		r := m.regs[in.Reg]
+		if r == nil {
+			for _, x := range cfg.Regs {
+				if x.ID == in.Reg {
+					r = x
+				}
+			}
+		}
+		if r == nil || in.OutIdx >= len(r.Outs) || !r.Outs[in.OutIdx].Concrete.IsDisp() {
+			continue
+		}
+		switch {
+		case in.closeCount == 0:
+			vs = append(vs, Violation{Prop: "C10", Rule: "C10.once", Shape: "history/" + formNames[r.Form] + "/" + lifeNames[r.Life] + "/leak", Msg: fmt.Sprintf("instance #%d (r%d output %d, %s) was created by a constructor the container ran and is still open after every provider of the history has been closed", in.ID, in.Reg, in.OutIdx, r)})
+		case in.closeCount > 1:
+			vs = append(vs, Violation{Prop: "C10", Rule: "C10.once", Shape: "history/" + formNames[r.Form] + "/" + lifeNames[r.Life] + "/twice", Msg: fmt.Sprintf("instance #%d (r%d output %d, %s) was closed %d times", in.ID, in.Reg, in.OutIdx, r, in.closeCount)})
+		}
 	}
 	return vs
 }
